@@ -16,6 +16,8 @@ type SMT struct {
 	decls     []string
 	declSeen  map[string]string // name -> sort
 	asserts   []string          // definitions and guarded assumptions, in program order
+	groups    []string          // parallel to asserts: "" = always included, else only for obligations of that group
+	curGroup  string
 	n         int
 	strLits   map[string]string
 	structs   map[string]*types.Struct // datatype name -> struct
@@ -101,7 +103,16 @@ func (s *SMT) fresh(prefix, sort string) string {
 	return s.declare(fmt.Sprintf("%s!%d", sanitize(prefix), s.n), sort)
 }
 
-func (s *SMT) assert(t string) { s.asserts = append(s.asserts, t) }
+func (s *SMT) assert(t string) {
+	s.asserts = append(s.asserts, t)
+	s.groups = append(s.groups, s.curGroup)
+}
+
+// assertG records an assumption that only obligations of group g may use.
+func (s *SMT) assertG(g, t string) {
+	s.asserts = append(s.asserts, t)
+	s.groups = append(s.groups, g)
+}
 
 // define declares name:=term and returns name.
 func (s *SMT) define(prefix, sort, term string) string {
@@ -155,18 +166,18 @@ func isOpaqueNamed(t types.Type) bool {
 
 // external struct types whose fields the repository code reads/writes directly.
 var transparentExt = map[string]bool{
-	"github.com/tokenized/pkg/wire.BlockHeader":     true,
-	"github.com/tokenized/pkg/wire.OutPoint":        true,
-	"github.com/tokenized/pkg/wire.MsgTx":           true,
-	"github.com/tokenized/pkg/wire.TxIn":            true,
-	"github.com/tokenized/pkg/wire.TxOut":           true,
-	"github.com/tokenized/pkg/wire.InvVect":         true,
-	"github.com/tokenized/pkg/wire.MsgGetData":      true,
-	"github.com/tokenized/pkg/wire.MsgHeaders":      true,
-	"github.com/tokenized/pkg/wire.MsgInv":          true,
-	"github.com/tokenized/pkg/wire.MsgTxn":          true,
-	"github.com/tokenized/pkg/wire.MsgGetHeaders":   true,
-	"github.com/tokenized/pkg/bitcoin.UTXO":         true,
+	"github.com/tokenized/pkg/wire.BlockHeader":         true,
+	"github.com/tokenized/pkg/wire.OutPoint":            true,
+	"github.com/tokenized/pkg/wire.MsgTx":               true,
+	"github.com/tokenized/pkg/wire.TxIn":                true,
+	"github.com/tokenized/pkg/wire.TxOut":               true,
+	"github.com/tokenized/pkg/wire.InvVect":             true,
+	"github.com/tokenized/pkg/wire.MsgGetData":          true,
+	"github.com/tokenized/pkg/wire.MsgHeaders":          true,
+	"github.com/tokenized/pkg/wire.MsgInv":              true,
+	"github.com/tokenized/pkg/wire.MsgTxn":              true,
+	"github.com/tokenized/pkg/wire.MsgGetHeaders":       true,
+	"github.com/tokenized/pkg/bitcoin.UTXO":             true,
 	"github.com/tokenized/pkg/merkle_proof.MerkleProof": false,
 }
 
